@@ -27,7 +27,9 @@ def check_lzip_tables(ck, prog):
             fd.Key("field", "dict_size", rec="lzma_options_lzma", label="dict"),
             fd.Key("retval", "$ret", label="$ret")]
     g = fd.FD(prog, f, keys, cg=cg, split=256, call_values=lambda c, s: rs.call_set(c, f))
-    g.run([g.make_state(seq=[en["SEQ_DICT_SIZE"]], **{"$ret": [machine.NO_RETURN_YET]})])
+    ds_state = frozenset([en["SEQ_DICT_SIZE"]])
+    g.run([g.make_state(seq=[en["SEQ_DICT_SIZE"]], **{"$ret": [machine.NO_RETURN_YET]})],
+          stop=lambda bid, s: g.get(s, "seq") != ds_state)
     accepted, rejected = {}, set()
     asg = None
     for b, i, e in f.iter_elems():
